@@ -13,8 +13,10 @@ export REPO=$S/repo VERIF=$S/verif
 cd /verif
 k=0
 for d in seeded/*/; do
-  k=$((k+1)); [ $((k % N)) -eq $I ] || continue
   id=$(basename $d); p=${id%-*}
+  # ONLY="C14 C17": the seeds of these properties only
+  if [ -n "$ONLY" ]; then case " $ONLY " in *" $p "*) ;; *) continue;; esac; fi
+  k=$((k+1)); [ $((k % N)) -eq $I ] || continue
   case $id in
     C06-3) p="C07 C06";; C12-3) p="C07 C12";; C01-3) p="C01 C07";; C15-1) p="C15 C16";; C15-3) p="C15 C01";;
   esac
